@@ -357,6 +357,19 @@ def window (s : Srv) (to : Tok) (frm : Frm) (b : Body) (es : List Env) : Out × 
     let s1 := { s with slot := upd s.slot t .absent, armed := upd s.armed t false }
     deliver (runEnvs s1 es) to frm b
 
+/-- The window of `requestTree` between `IsRegistered` and `Register`: the protocol message `(to, frm, b)` has
+missed its tree, is parked, has found the tree neither stored nor requested; before it registers the request,
+the envelopes `es` are handled (another message for the tree parks, registers and asks; the answer may arrive
+and flush both); then the first message registers — a no-op when the tree is known meanwhile
+(treestorage.go `Register`: "never drop a tree that has been set in the meantime") — and sends its request. -/
+def rwindow (s : Srv) (to : Tok) (frm : Frm) (b : Body) (es : List Env) : Out × Srv :=
+  let t := treeOf to
+  if b = .garbage ∨ to = .none ∨ s.slot t ≠ .absent then process s (.proto to frm b)
+  else
+    let s1 := { s with armed := upd s.armed t false, parked := upd s.parked t (s.parked t ++ [(to, frm, b)]) }
+    let s2 := runEnvs s1 es
+    (.ok, { s2 with slot := upd s2.slot t (if s2.slot t = .absent then .requested else s2.slot t), asks := s2.asks + 1 })
+
 /-- the same on the code before /repo fafcac0: the creation stored the tree and did not look at the parked messages -/
 def windowOld (s : Srv) (to : Tok) (frm : Frm) (b : Body) (es : List Env) : Out × Srv :=
   let t := treeOf to
@@ -487,6 +500,10 @@ def step (st : State) (toks : List String) : State × String :=
     match n.toNat? with
     | some n => let x := runEnvs st.s (stormEnvs n); ({ s := x }, obs .ok x)
     | none => (st, "bad-op")
+  | "rwindow" :: t :: f :: b :: rest =>
+    match tok t, frm f, body b, (splitBar rest).bind (·.mapM parse) with
+    | some t, some f, some b, some es => let r := rwindow st.s t f b es; ({ s := r.2 }, obs r.1 r.2)
+    | _, _, _, _ => (st, "bad-op")
   | "window" :: t :: f :: b :: rest =>
     -- `window <to> <from> <body> | <envelope> | <envelope> …`
     match tok t, frm f, body b, (splitBar rest).bind (·.mapM parse) with
